@@ -6,6 +6,8 @@
    (1) the extracted list is literally the expected one (order, scoping, orderings, nothing missing);
    (2) its synchronisation actions, in program order, are the ones the model's steps are annotated with
        (`Epoll.expectedSkeleton`, derived from `Epoll.skeletonSyncs` — the data `orderings_sufficient` is about).
+  The registration flags of a connection socket are part of the list: `events EPOLLIN|EPOLLRDHUP` — LEVEL-triggered, the
+  modelling assumption behind `C14_no_lost_wakeup` (an ignored readiness event is reported again); adding EPOLLET changes it.
   Weakening an ordering, replacing the CAS by a store, moving `closed.store` before the DEL, freeing records
   elsewhere than at the end of a batch … changes the extracted list and these obligations stop checking.
 -/
@@ -21,7 +23,7 @@ def Epoll.expectedJobRun : List String :=
 def Epoll.expectedServe : List String :=
   ["{", "{", "epoll_wait", "}", "{", "{", "continue", "return", "}", "}",
    "{", "{", "accept", "{", "setup", "{", "{", "continue", "return", "}", "}",
-   "box stream", "box handle", "{", "epoll_ctl ADD", "}",
+   "box stream", "box handle", "{", "events EPOLLIN|EPOLLRDHUP", "}", "{", "epoll_ctl ADD", "}",
    "{", "{", "free handle", "take stream", "}", "teardown", "{", "drop stream", "}", "}", "}", "}",
    "{", "drain_wake", "}",
    "{", "load closed Acquire", "cas in_flight false true Acquire Relaxed", "{", "execute", "}", "}", "}",
